@@ -94,6 +94,25 @@ func c06Run(o *vOut, r *vRand, m *c06Msg, v6 bool, loopOk bool) {
 			o.fail("treat-as-withdraw-loses-nlri", map[string]any{"body": hx, "faults": m.faultNames(), "nlri_sent": len(m.nlri), "nlri_reported": len(msg.NLRI)})
 		}
 	}
+	if cls < 4 && !m.framing {
+		// attribute discard removes the malformed attribute ONLY: every attribute the harness left
+		// intact (also those that follow a discarded one) must still be in msg.PathAttributes
+		got := map[byte]int{}
+		for _, p := range msg.PathAttributes {
+			got[byte(p.GetType())]++
+		}
+		want := map[byte]int{}
+		for i := range m.attrs {
+			if m.attrs[i].tag == "" {
+				want[m.attrs[i].typ]++
+			}
+		}
+		for t, n := range want {
+			if got[t] < n {
+				o.fail("wellformed-attribute-dropped-by-decoder", map[string]any{"body": hx, "faults": m.faultNames(), "type": t, "use2": m.use2})
+			}
+		}
+	}
 	if cls <= 1 && !m.framing {
 		for i := range m.attrs {
 			a := &m.attrs[i]
